@@ -36,6 +36,75 @@ const PIECES: &[(&str, &str)] = &[
     ("import-instance", "(import \"inst#\" (instance (export \"f\" (func)) (export \"t\" (type (sub resource)))))"),
     ("core-type", "(core type $cty# (module (import \"a\" \"b\" (func)) (export \"c\" (func (param i32)))))"),
     ("custom", "(@custom \"sec#\" \"payload #\")"),
+    ("instance-type-zoo",
+     "(type $ozo# (record (field \"q\" u8)))
+      (type $itz# (instance
+        (type $r (record (field \"a\" u8) (field \"b\" string)))
+        (type $v (variant (case \"x\") (case \"y\" u32)))
+        (type $l (list $r)) (type $t (tuple u8 s16 f32)) (type $fl (flags \"a\" \"b\")) (type $en (enum \"a\" \"b\"))
+        (type $o (option $v)) (type $rs (result u8 (error string))) (type $rs2 (result)) (type $p u8)
+        (export \"res\" (type $res (sub resource)))
+        (type $ow (own $res)) (type $bo (borrow $res))
+        (core type $cm (module (import \"a\" \"b\" (func)) (export \"c\" (func))))
+        (alias outer 1 $ozo# (type $al))
+        (type $nested (instance (export \"f\" (func (param \"x\" $al)))))
+        (export \"n\" (instance (type $nested)))
+        (export \"g\" (func (param \"a\" $l) (param \"b\" $o) (result $rs)))))"),
+    ("component-type-zoo",
+     "(type $ozc# (variant (case \"k\" string)))
+      (type $ctz# (component
+        (type $r (record (field \"a\" u8)))
+        (type $e (enum \"p\" \"q\")) (type $tu (tuple $r $e)) (type $li (list $e)) (type $op (option $r)) (type $re (result $r))
+        (import \"in\" (func (param \"x\" string)))
+        (import \"it\" (instance (export \"f\" (func))))
+        (export \"rt\" (type $rx (eq $r)))
+        (core type $cm (module))
+        (alias outer 1 $ozc# (type $al))
+        (type $inner (component (export \"x\" (func (param \"p\" u32)))))
+        (export \"out\" (func (result $rx)))
+        (export \"comp\" (component (type $inner)))
+        (export \"rr\" (type $rr (sub resource)))
+        (type $own (own $rr))
+        (export \"mk\" (func (result $own)))))"),
+    ("resource-dtor",
+     "(core module $rm# (func (export \"dtor\") (param i32)))
+      (core instance $ri# (instantiate $rm#))
+      (type $rd# (resource (rep i32) (dtor (core func $ri# \"dtor\"))))
+      (core func $rnew# (canon resource.new $rd#))
+      (core func $rdrop# (canon resource.drop $rd#))
+      (core func $rrep# (canon resource.rep $rd#))"),
+    ("lift-with-options",
+     "(core module $om# (memory (export \"mem\") 1)
+         (func (export \"realloc\") (param i32 i32 i32 i32) (result i32) i32.const 0)
+         (func (export \"g\") (param i32 i32))
+         (func (export \"post\")))
+      (core instance $oi# (instantiate $om#))
+      (type $oft# (func (param \"s\" string)))
+      (func $of# (type $oft#) (canon lift (core func $oi# \"g\") (memory (core memory $oi# \"mem\")) (realloc (core func $oi# \"realloc\")) string-encoding=utf16))
+      (export \"opt#\" (func $of#))"),
+    ("alias-instance-export",
+     "(import \"ai#\" (instance $aii# (export \"f\" (func)) (export \"t\" (type (sub resource)))))
+      (alias export $aii# \"f\" (func $aif#))
+      (alias export $aii# \"t\" (type $ait#))
+      (export \"re#\" (func $aif#))"),
+    ("core-type-func", "(core type $ctf# (func (param i32) (result i32))) (core type $cts# (struct (field i32)))"),
+    ("core-type-rec", "(core rec (type $cra# (struct)) (type $crb# (struct (field (ref null $cra#)))))"),
+    ("primitive-type", "(type $pt# u8) (type $pl# (list $pt#)) (type $pf# (func (param \"a\" $pt#) (result $pl#)))"),
+    ("fixed-list", "(type $fxl# (list u8 4))"),
+    ("instantiate-with-args",
+     "(component $ca# (import \"x\" (func $f)) (export \"y\" (func $f)))
+      (import \"fx#\" (func $fx#))
+      (instance $ia# (instantiate $ca# (with \"x\" (func $fx#))))
+      (instance $ie# (export \"z\" (func $fx#)))
+      (alias export $ia# \"y\" (func $fy#))
+      (export \"ey#\" (func $fy#) (func))"),
+    ("named-core-items",
+     "(core module $nm# (memory (export \"mem\") 1) (global (export \"g\") i32 (i32.const 0)) (table (export \"t\") 1 funcref) (tag (export \"tg\")))
+      (core instance $ni# (instantiate $nm#))
+      (alias core export $ni# \"mem\" (core memory $nmem#))
+      (alias core export $ni# \"g\" (core global $ng#))
+      (alias core export $ni# \"t\" (core table $nt#))
+      (alias core export $ni# \"tg\" (core tag $ntg#))"),
     ("lower",
      "(import \"low#\" (func $lf# (param \"x\" u32)))
       (core func $lowered# (canon lower (func $lf#)))
